@@ -1141,6 +1141,10 @@ def replay(witness):
             return True
         if oracle == 'script-escape':
             return False
+        if oracle == 'failure-log-once':
+            return len(fail_lines(res[modes[0]][1])) != witness['expected']
+        if oracle == 'no-log-without-debug':
+            return bool(fail_lines(res[modes[-1]][1]))
         if oracle in ('execution-continues',):
             r = res[modes[0]]
             return r[0] != ('ok', 'done') or r[1][-1:] != ['END']
@@ -1153,7 +1157,7 @@ def replay(witness):
             (od, ld, _), (on, ln_, _) = res[True], res[False]
             return [x for x in ld if not x.startswith('BareScript: ')] != [x for x in ln_ if not x.startswith('BareScript: ')] \
                 or bool(fail_lines(ln_)) or (od[0], str(od[1])) != (on[0], str(on[1]))
-        return bool(fail_lines(res[modes[0]][1])) != bool(modes[0]) and oracle == 'failure-log-once'
+        return False
     if kind in ('expr', 'aliasexpr'):
         expr = mods['parser'].parse_expression(inp['text'])
         g = copy.deepcopy(inp.get('globals') or {})
